@@ -111,7 +111,7 @@ func specEvalAt(d *spec.Doc, e spec.Expr, ctx int, b *spec.Bindings) (v spec.Val
 // RunFromNode: Exec(n, R) is R evaluated with context node n, position 1,
 // size 1, for every node n of every kind.
 func RunFromNode() {
-	b := hx.Gen(genOpts())
+	b := hx.GenOrSkeleton(genOpts())
 	nd.Assert(b.TieOK, "store-mirrors-script")
 	ctx := nd.Choice(len(b.Doc.Nodes))
 	bind := &spec.Bindings{NS: map[string]string{}, Vars: map[string]spec.Val{}}
@@ -127,7 +127,7 @@ func RunFromNode() {
 // RunCompose: Exec(root, "P/R") equals the union over n in Exec(root, P) of
 // Exec(n, R) — both sides are the real code.
 func RunCompose() {
-	b := hx.Gen(genOpts())
+	b := hx.GenOrSkeleton(genOpts())
 	nd.Assert(b.TieOK, "store-mirrors-script")
 	pi := nd.Choice(len(prefixes))
 	nd.Reach("compose")
